@@ -163,6 +163,7 @@ class SigmaRuleBase:
                         "Sigma rule name must be a string", source=source
                     )
                 )
+                rule_name = None  # can't be used as name (e.g. for indexing in a collection)
             else:
                 if rule_name == "":
                     errors.append(
